@@ -105,7 +105,15 @@ impl Walrus {
                     info.cur_block_idx = idx;
                     info.cur_block_offset = tail_off.min(used);
                 } else {
-                    info.cur_block_idx = 0;
+                    // The persisted tail block never received an entry (nothing of it was
+                    // recovered). Everything sealed before it had been consumed when the
+                    // position was taken, so resume at the first later block of this topic -
+                    // not at the start of the chain, which would redeliver every entry.
+                    info.cur_block_idx = info
+                        .chain
+                        .iter()
+                        .position(|b| b.id > tail_block_id)
+                        .unwrap_or(info.chain.len());
                     info.cur_block_offset = 0;
                 }
             }
@@ -671,6 +679,14 @@ impl Walrus {
                     let used = info.chain[idx].used;
                     info.cur_block_idx = idx;
                     info.cur_block_offset = tail_off.min(used);
+                } else {
+                    // see read_next: the persisted tail block was never written
+                    info.cur_block_idx = info
+                        .chain
+                        .iter()
+                        .position(|b| b.id > tail_bid)
+                        .unwrap_or(info.chain.len());
+                    info.cur_block_offset = 0;
                 }
             }
 
